@@ -310,6 +310,16 @@ def c20_config(work, tree_root, p_api, p_stat, variant):
     curve: pidc
     controlAlgorithm: pid
 """
+    curve_entries = [
+        '  - id: lin\n    linear:\n      sensor: cpu\n      min: 30\n      max: 70\n',
+        '  - id: steps\n    linear:\n      sensor: board\n      steps:\n        - 30: 0\n        - 50: 100\n        - 80: 255\n',
+        '  - id: pidc\n    pid:\n      sensor: board\n      setPoint: 50\n      p: -0.05\n      i: -0.005\n      d: -0.005\n',
+        '  - id: avg\n    function:\n      type: average\n      curves:\n        - lin\n        - pidc\n        - steps\n',
+        '  - id: mx\n    function:\n      type: maximum\n      curves:\n        - lin\n        - avg\n',
+    ]
+    # the listing order of the curves is the user's choice: members first (as in the README) or the function curves first
+    if variant % 2 == 1:
+        curve_entries.reverse()
     return """dbPath: {work}/fan2go.db
 runFanInitializationInParallel: true
 maxRpmDiffForSettledFan: 20
@@ -338,39 +348,7 @@ sensors:
     cmd:
       exec: {work}/cmd/temp.sh
 curves:
-  - id: lin
-    linear:
-      sensor: cpu
-      min: 30
-      max: 70
-  - id: steps
-    linear:
-      sensor: board
-      steps:
-        - 30: 0
-        - 50: 100
-        - 80: 255
-  - id: pidc
-    pid:
-      sensor: board
-      setPoint: 50
-      p: -0.05
-      i: -0.005
-      d: -0.005
-  - id: avg
-    function:
-      type: average
-      curves:
-        - lin
-        - pidc
-        - steps
-  - id: mx
-    function:
-      type: maximum
-      curves:
-        - lin
-        - avg
-fans:
+{curves}fans:
   - id: f1
     hwmon:
       platform: chipa
@@ -423,7 +401,7 @@ fans:
     neverStop: false
     curve: pidc
     controlAlgorithm: direct{extra}
-""".format(work=work, t=rates[0], r=rates[1], c=rates[2], p_api=p_api, p_stat=p_stat, extra=extra_fans)
+""".format(work=work, t=rates[0], r=rates[1], c=rates[2], p_api=p_api, p_stat=p_stat, extra=extra_fans, curves="".join(curve_entries))
 
 
 def c20_one_run(binary, work, idx, duration, merged, rng):
